@@ -120,6 +120,41 @@ class Crash(object):
         return '%s:%s' % (self.cls, self.func)
 
 
+def _limits(cpu, fsize):
+    import resource
+
+    def f():
+        if cpu:
+            resource.setrlimit(resource.RLIMIT_CPU, (cpu, cpu + 5))
+        if fsize:
+            resource.setrlimit(resource.RLIMIT_FSIZE, (fsize, fsize))
+    return f
+
+
+def run_limited(exe, args, env=None, timeout=300, cpu=60, fsize=64 << 20):
+    """tool run with stdout/stderr going to size-limited files and a CPU-time limit: an endless loop ends in SIGXCPU / SIGXFSZ
+    (reported by the caller) instead of eating memory or depending on wall-clock time"""
+    d = tempfile.mkdtemp(prefix='lim-', dir=WORK if os.path.isdir(WORK) else None)
+    try:
+        with open(os.path.join(d, 'o'), 'wb') as fo, open(os.path.join(d, 'e'), 'wb') as fe:
+            p = subprocess.Popen([exe] + args, stdout=fo, stderr=fe, env=env_for(env), start_new_session=True, preexec_fn=_limits(cpu, fsize))
+            to = False
+            try:
+                p.wait(timeout=timeout)
+            except subprocess.TimeoutExpired:
+                to = True
+                try:
+                    os.killpg(p.pid, signal.SIGKILL)
+                except Exception:
+                    p.kill()
+                p.wait()
+        out = open(os.path.join(d, 'o'), 'rb').read(1 << 20).decode(errors='replace')
+        err = open(os.path.join(d, 'e'), 'rb').read(1 << 20).decode(errors='replace')
+        return (None if to else p.returncode), out, err, to
+    finally:
+        shutil.rmtree(d, ignore_errors=True)
+
+
 def _run_stream(argv, env, timeout, cwd=None):
     """run, return (rc, stdout, stderr, timed_out)"""
     p = subprocess.Popen(argv, stdout=subprocess.PIPE, stderr=subprocess.PIPE, env=env, cwd=cwd, start_new_session=True)
